@@ -218,3 +218,30 @@ def normalize_smt_full(interp, P, ins):
       out[k, j] = A.var('nrmf!%d!%d_%d' % (k0, k, j))
       A.assume += [z3.Implies(tiny, out[k, j] == row[j] * big), z3.Implies(z3.Not(tiny), out[k, j] * nrm[k] == row[j])]
   return [out.reshape(x.shape), nrm.reshape(lead)]
+
+
+def psd_handler(tag):
+  """cut with the contract "returns SOME symmetric positive semi-definite matrix per batch element" (M = L L^T for fresh L): what brax.com.inv_inertia returns for
+  every physical link (R diag(1/i) R^T with positive principal moments: C09/com.inv_inertia/inverse); callers may rely on x.Mx >= 0 only."""
+  def h(interp, P, ins):
+    A = interp.alg
+    batch = tuple(P['batch'])
+    nb = int(np.prod(batch)) if batch else 1
+    k0 = len(interp.calls)
+    outs = []
+    for oi, sh in enumerate(P['out_shapes']):
+      sh = tuple(sh)
+      lead, n = sh[:-2], sh[-1]
+      nl = int(np.prod(lead)) if lead else 1
+      full = np.empty((nb * nl, n, n), dtype=object)
+      for b in range(nb * nl):
+        L = [[A.var('%s!%d!L%d_%d_%d' % (tag, k0, b, i, j)) if j <= i else 0 for j in range(n)] for i in range(n)]
+        for i in range(n):
+          for j in range(n):
+            acc = 0
+            for k in range(n):
+              acc = A.add(acc, A.mul(L[i][k], L[j][k]))
+            full[b, i, j] = acc
+      outs.append(full.reshape(batch + sh))
+    return outs
+  return h
